@@ -552,7 +552,7 @@ def replay_candidate(execute, cfg, ctx, V, failed, rng, tries):
         if rep['bad']:
             sig = {'kind': rep['kind'], 'obligation': rep['bad'][0][0] if rep['kind'] == 'residual' else None,
                    'exception': rep.get('exception'), 'where': rep.get('where'),
-                   'symbolic_failed': [f[0] for f in failed][:6]}
+                   'symbolic_failed': [f[0] for f in failed][:12]}
             return {'status': 'reproduced', 'violation': {'cfg': cfg, 'inputs': _jsonable(inputs), 'labels': lm,
                                                            'sig': sig, 'bad': [(n, m, s) for n, m, s in rep['bad'][:8]]}}
     if ctx.extra.get('tie_facts') and last in ('not_reproduced', 'path_not_concretised'):
